@@ -15,7 +15,7 @@ L2_TRUST = ['L2 model (coq/theories/L2/Model.v): ONE queue with futures, three r
 PROPS = {
     'C01': {
         'correspondence': CORR_L1,
-        'coq': ['theories/Props/C01.vo', 'theories/Inst/C01_now.vo', 'theories/L2/PropsC01.vo', 'theories/L2/Inst.vo', 'theories/Inst/Fut_now.vo', 'theories/SyncFut/PropsC08.vo', 'theories/Inst/C08_now.vo', 'theories/Inst/Wrapper_now.vo', 'theories/L1n/PropsL1n.vo', 'theories/L1n/Inst.vo'],
+        'coq': ['theories/Props/C01.vo', 'theories/Inst/C01_now.vo', 'theories/L2/PropsC01.vo', 'theories/L2/Inst.vo', 'theories/Inst/Fut_now.vo', 'theories/SyncFut/PropsC08.vo', 'theories/Inst/C08_now.vo', 'theories/Inst/Wrapper_now.vo', 'theories/L1n/PropsL1n.vo', 'theories/L1n/Inst.vo', 'theories/L2/PropsC08.vo'],
         'profiles': [prof('core', (60, 15), (1500, 60)), prof('sync', (40, 15), (800, 60)), prof('fut', (50, 15), (1000, 60)), prof('fsync', (30, 10), (600, 40)), prof('pipein', (20, 10), (400, 40), extra=['--max-steps', '30000']), prof('sweep:overlap_sweep.progs', (0, 2), (0, 12)), prof('progs:fut_extra.progs', (0, 60), (0, 1500)), prof('progs:cancel.progs', (0, 100), (0, 3000)), prof('progs:syncfut_extra.progs', (0, 20), (0, 300)), prof('progs:pipe_yield.progs', (0, 60), (0, 1500), extra=['--max-steps', '30000'])],
         'monitors': ['C01'], 'liveness': False, 'panics': False,
         'trusted_base': L1_TRUST,
@@ -70,12 +70,12 @@ PROPS = {
         'assumptions': ['proved (C07_full_L2): a result is resolved at most once, only after the operation signalled, with its own value; no would-panic state is reachable; poll stores the task waker in the critical section in which it found the result missing and signal takes and calls it; the task invariant (Inv_task) holds in every reachable state; and C07_complete_L2: with >= 1 pool runner, in every terminal state with all events fired every actor is done (each awaiting caller has received its result, each pool runner is idle). With zero pool runners: C06_zero_pool_L2. The model is ONE queue; several objects by exploration'],
     },
     'C08': {
-        'coq': ['theories/SyncFut/PropsC08.vo', 'theories/Inst/C08_now.vo', 'theories/Inst/Jobs_now.vo'],
+        'coq': ['theories/SyncFut/PropsC08.vo', 'theories/Inst/C08_now.vo', 'theories/Inst/Jobs_now.vo', 'theories/L2/PropsC08.vo', 'theories/L2/Inst.vo'],
         'profiles': [prof('fsync', (100, 20), (2500, 60)), prof('progs:cancel.progs', (0, 400), (0, 6000)), prof('progs:f6_waiter_takeover.progs', (0, 60), (0, 1500)), prof('progs:fsync_pool0.progs', (0, 40), (0, 1000))],
         'correspondence': {'kind': 'syncfut', 'profiles': [prof('fsync', (60, 5), (600, 10)), prof('progs:syncfut_extra.progs', (0, 10), (0, 60)), prof('progs:cancel.progs', (0, 10), (0, 60))]},
         'monitors': ['C08', 'C01', 'C02', 'C05'], 'liveness': True, 'panics': True,
         'trusted_base': ['SyncFut model (coq/theories/SyncFut/Model.v): hand-written; the queue abstracted as one-at-a-time FIFO execution with the slot job and other operations possibly suspended (justified by C01/C02), the queue runner excluded while the polling task drains (justified by the ownership invariant); tied by translator facts, by the replay of logged executions of the real crate on the extracted model (driver/syncfut/replay_syncfut.ml: every oneshot operation, result-cell section and harness marker must be an enabled model step with the same label and poll result, and the final order of observables must equal the model\'s ghost log) and by the run-time oracles'],
-        'assumptions': ['terminal-state form of "releases the queue" (no termination measure); a hand-written future that still owns captures after returning Ready would release them outside the slot (Desync::future_sync wraps the job in an async block, so this cannot happen through the safe API)'],
+        'assumptions': ['TWO models: SyncFut (abstract one-at-a-time queue, every drop point, zero pool incl.) and since the last round L2 itself (the real queue machinery: OFutSync with the slot job as a queue job, two oneshot cells, SyncFuture::poll step by step): C08_1..C08_5_L2 + refutation for the reversed field order; C08_5_L2 needs >= 1 pool runner (zero pool: SyncFut). terminal-state form of "releases the queue" (no termination measure); a hand-written future that still owns captures after returning Ready would release them outside the slot (Desync::future_sync wraps the job in an async block, so this cannot happen through the safe API)'],
     },
     'C09': {
         'correspondence': CORR_L1,
